@@ -23,6 +23,7 @@ type Obligation struct {
 	Guard  string
 	Goal   string
 	Descr  string
+	Quant  bool
 	fc     *FnCtx
 	Result *SolveResult
 	// cover obligations succeed on sat
@@ -69,6 +70,8 @@ type FnCtx struct {
 	noRecord    bool
 	freshSet    map[string]bool
 	specDepth   int
+	appendNewRef string
+	contractVars map[string]Val
 	anchorArgs  []Val
 	anchorRes   *Val
 	anchorLog   []anchorKey
@@ -224,7 +227,7 @@ func (fc *FnCtx) obligeAt(st *State, kind, detail, goal string, pos token.Pos, d
 	}
 	fc.obls = append(fc.obls, &Obligation{
 		Name: name, Kind: kind, Fn: fc.name, Pos: fc.posOf(pos),
-		NDecl: len(fc.decls), Guard: st.guard, Goal: goal, Descr: descr, fc: fc,
+		NDecl: len(fc.decls), Guard: st.guard, Goal: goal, Descr: descr, fc: fc, Quant: fc.hasQuant,
 	})
 }
 
